@@ -50,7 +50,9 @@ type Root struct {
 }
 
 // escape-relevant strings and awkward map keys (index 1..12)
-var strTab = []string{"", "plain", "", "a b", "q\"t", "n\nl", "$${x}-${y}", "%%{y}%{z}", "é́", "back\\slash", "for", "null", "0key-x", "007", "7"}
+var strTab = []string{"", "plain", "", "a b", "q\"t", "n\nl", "$${x}-${y}", "%%{y}%{z}", "é́", "back\\slash", "for", "null", "0key-x", "007", "7",
+	// the JSON syntax's comment property name, here an ordinary label / map key / string
+	"//"}
 
 func str(i int) string { return norm.NFC.String(strTab[i]) }
 
